@@ -29,6 +29,10 @@ C07 line-protocol driver (fields separated by one space; byte strings hex, `-` =
         `file_server [browse] { hide …; index … (omitted when `.`); pass_thru; disable_canonical_uris }`
         — adapted by the real adapter under the file name <caddyfile>, served by the real http app
         → like serve (Site.lean: siteHide, matcher → rewrite → file server)
+  two <mode p|e> <cwd> <rootA> <hideA> <indexA> <flagsA> <rootB> <hideB> <indexB> <flagsB> <path> <tree>
+        two file_server handlers on ONE request through the real adapter and http app:
+        p: `route { file_server {A}; file_server {B} }`   e: `file_server {A}; handle_errors { file_server {B} }`
+        → like serve (Site.lean: chainServe / errServe; each handler uses its own hide list)
   pair <fault> <serve fields A> // <serve fields B>
         fault         n: none; t | w<k>: request A's listing is rendered but not delivered (failing template /
                       client connection fails after k bytes); then B is served by another instance
@@ -274,6 +278,37 @@ def handleMatch (cwd root tries pol path tree splits : String) : String :=
       | none => "bad-op"
   | _, _, _, _, _, _ => "bad-op"
 
+/-- one `file_server` block of op `two` -/
+def parseBlock (cwd : Bytes) (root hide index flags : String) : Option Cfg :=
+  match Hex.decode root, parseList hide, parseList index, flags.toList.mapM parseBit with
+  | some root, some hide, some index, some [b, pt, cn] =>
+    if !(root.isEmpty || safeCfg root) || !hide.all safeCfg || !index.all safeCfg then none
+    else some { cwd := cwd, root := root, hide := siteHide cwd hide (some (str "/etc/caddy/Caddyfile")),
+                index := if index.isEmpty then defaultIndexNames else index,
+                browse := b, passThru := pt, canonical := cn }
+  | _, _, _, _ => none
+
+/-- `two <mode> <cwd> <rootA> <hideA> <indexA> <flagsA> <rootB> <hideB> <indexB> <flagsB> <path> <tree>`:
+    two `file_server` handlers on one request — mode `p`: `route { A; B }` (A usually with pass_thru),
+    mode `e`: A in the site, B inside `handle_errors` (B without pass_thru) -/
+def handleTwo (mode cwd rootA hideA indexA flagsA rootB hideB indexB flagsB path tree : String) : String :=
+  match Hex.decode cwd, Hex.decode path, parseTree tree with
+  | some cwd, some path, some tree =>
+    if !isRooted cwd || pathClean cwd ≠ cwd || !validTree tree then "bad-op"
+    else match parseBlock cwd rootA hideA indexA flagsA, parseBlock cwd rootB hideB indexB flagsB with
+      | some a, some b =>
+        if mode == "p" then
+          let r := chainServe (treeFS cwd tree) [a, b] path
+          showOutcome r.1 ++ " | " ++ showList r.2
+        else if mode == "e" then
+          if b.passThru then "bad-op"
+          else
+            let r := errServe (treeFS cwd tree) a b path
+            showOutcome r.1 ++ " | " ++ showList r.2
+        else "bad-op"
+      | _, _ => "bad-op"
+  | _, _, _ => "bad-op"
+
 def handle : List String → String
   | ["clean", p] =>
     match Hex.decode p with
@@ -301,6 +336,8 @@ def handle : List String → String
     handleSite cwd root hide index flags tries path tree cfname
   | ["site", cwd, root, hide, index, flags, tries, path, tree, cfname, pol] =>
     handleSite cwd root hide index flags tries path tree cfname pol
+  | ["two", mode, cwd, rootA, hideA, indexA, flagsA, rootB, hideB, indexB, flagsB, path, tree] =>
+    handleTwo mode cwd rootA hideA indexA flagsA rootB hideB indexB flagsB path tree
   | "pair" :: fault :: rest =>
     -- a faulted browse request A, then request B on another instance; by
     -- `Props.browse_history_independent` the answer is B's own answer
